@@ -69,7 +69,10 @@ def declare(reg):
                 'tatsu/contexts/core.py:ParserCore'],
         'fields': {'states': 'States', 'tracer': 'opaque:Tracer', '_active_config': 'ConfigR',
                    'keywords': 'strset', 'semantics': 'opaque:Semantics', '_memos': 'MemoD', '_results': 'MemoD',
-                   'textlen': 'int', '_config': 'ConfigR'},
+                   'textlen': 'int', '_config': 'ConfigR',
+                   # ghost: the node last handed to set_parseinfo() (C12: the node that carries a rule's parse information is the
+                   # node the rule returns, i.e. the one the semantic action produced)
+                   'ghost_stamped': 'Val'},
         'wf': ['len(self.states.state_stack) >= 1', 'spec_frame_wf(self.states.state_stack[-1])',
                'self.states.state_stack[-1].cursor.len == self.textlen'],
         'isa': ['Ctx', 'ParseContext', 'ParserEngine', 'ParserCore'],
